@@ -1,4 +1,5 @@
 import H2V.Lemmas.ConnPartPBooks2
+import H2V.Props.C03
 import H2V.Lemmas.ConnWakePBasic
 /-
   C03 (cover) — the STREAM-level conservation theorems of `H2V/Props/C03.lean` (7–9) carry the hypothesis
@@ -60,6 +61,29 @@ theorem every_stream_window_conserved_or_connection_dead {T H : Nat} {c : Conn} 
     rcases ok.bud hl with hcl | hb
     · rw [hc] at hcl; cases hcl
     · exact ⟨by have := ok.wa; have := hb.1; omega, hb.1, hb.2⟩
+
+/-- **a stream WINDOW_UPDATE credits exactly what is owed, and a stream window returns to its configured
+    size — or the connection is dying** (theorems 8 and 9 of C03 at connection level, unconditionally): for every
+    reachable connection that is not dead, (8) for a receive-streaming stream whose `unclaimed_capacity()` is
+    `Some(incr)`: `incr = available − window` exactly and `inc_window(incr)` makes the window equal to
+    `available`; (9) for a linked, open stream whose `RecvStream` exists, with nothing in flight and at least half
+    of the window used by the peer: `available = init_window_sz` and a WINDOW_UPDATE of exactly
+    `init_window_sz − window` is owed. -/
+theorem stream_window_updates_exact_or_connection_dead {T H : Nat} {c : Conn} (h : SReach T H c) :
+    Dead c ∨
+    ((∀ x ∈ c.streams.store.slab, x.state.isRecvStreaming = true → ∀ incr, x.recvFlow.unclaimedCapacity = some incr →
+        (incr : Int) = x.recvFlow.available.val - x.recvFlow.windowSize.val ∧
+        x.recvFlow.incWindow incr = ({ x.recvFlow with windowSize := ⟨x.recvFlow.available.val⟩ }, .ok ())) ∧
+     (∀ x ∈ c.streams.store.slab, linked c.streams x.key → x.state.isClosed = false → x.isRecv = true →
+        x.inFlightRecvData = 0 → 2 * x.recvFlow.windowSize.val ≤ (c.streams.recv.initWindowSz : Int) →
+        x.recvFlow.windowSize.val < (c.streams.recv.initWindowSz : Int) →
+        x.recvFlow.available.val = (c.streams.recv.initWindowSz : Int) ∧
+        x.recvFlow.unclaimedCapacity =
+          some ((c.streams.recv.initWindowSz : Int) - x.recvFlow.windowSize.val).toNat)) := by
+  rcases stream_layer_ok_or_connection_dead h with hd | ⟨g, hg, -, -⟩
+  · exact Or.inl hd
+  · exact Or.inr ⟨fun x hx hrs incr hu => H2V.Props.C03.stream_window_update_exact hg hx hrs hu,
+      fun x hx hl hc hr h0 hhalf hlt => H2V.Props.C03.stream_window_restored hg hx hl hc hr h0 hhalf hlt⟩
 
 /-- **the two failing calls are connection errors, and they kill the connection**:
     `apply_local_settings` fails only with `Error::GoAway` (never a stream error; `Inner::send_reset`'s
@@ -157,6 +181,7 @@ end H2V.Props.C03Cover
 
 #print axioms H2V.Props.C03Cover.stream_layer_ok_or_connection_dead
 #print axioms H2V.Props.C03Cover.every_stream_window_conserved_or_connection_dead
+#print axioms H2V.Props.C03Cover.stream_window_updates_exact_or_connection_dead
 #print axioms H2V.Props.C03Cover.failing_calls_kill_the_connection
 #print axioms H2V.Props.C03Cover.dead_connection_stays_dead
 #print axioms H2V.Props.C03Cover.sreach_is_creach
